@@ -699,3 +699,129 @@ Section LogInv.
     induction 1 as [|s l s' Hr IH Hstep]; [apply LInv_init|]. eapply LInv_step; eassumption.
   Qed.
 End LogInv.
+
+(* ------------------------------------------------------------------ *)
+(** * C05: log matching, leader append-only, committed prefix immutable *)
+
+Section C05.
+  Variables (inc out : list N).
+  Hypothesis inc_nonempty : inc <> [].
+  Hypothesis Hmulti : no_single_quorum inc out.
+  Notation lrule := (lrule inc out).
+  Notation lreachable := (lreachable inc out).
+
+  Theorem log_matching s n1 n2 L1 L2 j : lreachable s ->
+    (L1 = l_log (ln s n1) \/ L1 = l_dlog (ln s n1) \/ In L1 (l_imgs (ln s n1))) ->
+    (L2 = l_log (ln s n2) \/ L2 = l_dlog (ln s n2) \/ In L2 (l_imgs (ln s n2))) ->
+    (1 <= j)%nat -> (j <= length L1)%nat -> (j <= length L2)%nat ->
+    term_at L1 j = term_at L2 j -> firstn j L1 = firstn j L2.
+  Proof.
+    intros Hr H1 H2. pose proof (lreachable_LInv inc out inc_nonempty Hmulti s Hr) as HI.
+    apply good_matching with (lg := llog s).
+    - destruct H1 as [->|[->|H1]]; [apply (li_Dlog s HI)|apply (li_Ddlog s HI)|eapply (li_Dimg s HI); exact H1].
+    - destruct H2 as [->|[->|H2]]; [apply (li_Dlog s HI)|apply (li_Ddlog s HI)|eapply (li_Dimg s HI); exact H2].
+  Qed.
+
+  Corollary log_matching_entries s n1 n2 L1 L2 j i : lreachable s ->
+    (L1 = l_log (ln s n1) \/ L1 = l_dlog (ln s n1) \/ In L1 (l_imgs (ln s n1))) ->
+    (L2 = l_log (ln s n2) \/ L2 = l_dlog (ln s n2) \/ In L2 (l_imgs (ln s n2))) ->
+    (1 <= j)%nat -> (j <= length L1)%nat -> (j <= length L2)%nat ->
+    term_at L1 j = term_at L2 j -> (i < j)%nat -> nth_error L1 i = nth_error L2 i.
+  Proof.
+    intros Hr H1 H2 Hj Hl1 Hl2 Ht Hi. apply nth_error_firstn_eq with (k := j); [exact Hi|].
+    eapply log_matching; eassumption.
+  Qed.
+
+  Theorem leader_append_only s l s' c : lreachable s -> lrule l s = Some s' ->
+    own_term_leader s c = true -> own_term_leader s' c = true ->
+    p_term (nodes (el s') c) = p_term (nodes (el s) c) ->
+    exists suffix, l_log (ln s' c) = l_log (ln s c) ++ suffix.
+  Proof.
+    intros Hr Hstep Hl Hl' Ht.
+    pose proof (lreachable_LInv inc out inc_nonempty Hmulti s Hr) as HI.
+    assert (Hr' : lreachable s') by (eapply lreach_step; eassumption).
+    pose proof (lreachable_LInv inc out inc_nonempty Hmulti s' Hr') as HI'.
+    rewrite (li_B s HI c Hl), (li_B s' HI' c Hl'), Ht.
+    apply (llog_grows inc out inc_nonempty Hmulti s l s' Hr HI Hstep).
+  Qed.
+
+  (* the same read off the roles (a node in the leader role is up) *)
+  Theorem leader_append_only_roles s l s' c : lreachable s -> lrule l s = Some s' ->
+    p_role (nodes (el s) c) = PL -> p_role (nodes (el s') c) = PL ->
+    p_term (nodes (el s') c) = p_term (nodes (el s) c) ->
+    exists suffix, l_log (ln s' c) = l_log (ln s c) ++ suffix.
+  Proof.
+    intros Hr Hstep Hl Hl' Ht.
+    assert (Hr' : lreachable s') by (eapply lreach_step; eassumption).
+    eapply leader_append_only; try eassumption; apply own_term_leader_spec; split; try assumption.
+    - apply (leader_up inc out (el s)); [apply lreachable_el; exact Hr|exact Hl].
+    - apply (leader_up inc out (el s')); [apply lreachable_el; exact Hr'|exact Hl'].
+  Qed.
+
+  Theorem commit_prefix_immutable s l s' n : lreachable s -> lrule l s = Some s' ->
+    l <> LEl (LCrash n) ->
+    (l_commit (ln s n) <= l_commit (ln s' n))%nat /\
+    firstn (l_commit (ln s n)) (l_log (ln s' n)) = firstn (l_commit (ln s n)) (l_log (ln s n)).
+  Proof.
+    intros Hr H Hnc. pose proof (lreachable_LInv inc out inc_nonempty Hmulti s Hr) as HI.
+    pose proof (li_G s HI n) as HG.
+    destruct l as [l0|c x|n0 m|q i|q t i|c k|n0 k|n0|n0].
+    - destruct (lel_inv _ _ _ _ _ H) as (e' & He & Hel & Hs).
+      destruct l0 as [n0|n0|n0|n0 t|n0 c t|n0 t|n0 t|c n0|c|n0 t|n0|n0|n0];
+        try (subst s'; cbn; split; [lia|reflexivity]).
+      + destruct Hs as [-> _]. cbn. split; [lia|reflexivity].
+      + destruct Hs as [_ ->]. cbn [set_llog set_ln set_el ln].
+        destruct (N.eqb_spec n c) as [->|Hne]; [|split; [lia|reflexivity]].
+        cbn [with_log l_log l_commit]. split; [lia|]. apply firstn_app_le. exact HG.
+      + subst s'. cbn [set_ln set_el ln].
+        destruct (N.eqb_spec n n0) as [->|Hne]; [congruence|]. split; [lia|reflexivity].
+    - apply lpropose_inv in H. destruct H as (_ & ->). cbn [set_llog set_ln ln].
+      destruct (N.eqb_spec n c) as [->|Hne]; [|split; [lia|reflexivity]].
+      cbn [with_log l_log l_commit]. split; [lia|]. apply firstn_app_le. exact HG.
+    - apply ladopt_inv in H. cbv zeta in H. destruct H as (_ & _ & _ & _ & Hcp & _ & ->). cbn [set_ln ln].
+      destruct (N.eqb_spec n n0) as [->|Hne]; [|split; [lia|reflexivity]].
+      cbn [with_log l_log l_commit]. split; [lia|]. destruct Hcp as [suf Hs].
+      pose proof (prefix_firstn _ _ _ Hs) as Hp. rewrite firstn_length in Hp.
+      replace (Nat.min (l_commit (ln s n0)) (length (l_log (ln s n0)))) with (l_commit (ln s n0)) in Hp by lia.
+      exact Hp.
+    - apply lmkack_inv in H. cbv zeta in H. destruct H as (_ & _ & _ & _ & ->). cbn [set_ln ln].
+      destruct (N.eqb_spec n q) as [->|Hne]; cbn; split; try lia; reflexivity.
+    - apply lrelack_inv in H. destruct H as (_ & _ & _ & ->).
+      destruct (acked s q t <? i)%nat; cbn; split; try lia; reflexivity.
+    - apply lcommitl_inv in H. cbv zeta in H. destruct H as (_ & _ & Hk & _ & _ & ->). cbn [add_cpt set_ln ln].
+      destruct (N.eqb_spec n c) as [->|Hne]; cbn; split; try lia; reflexivity.
+    - apply lcommitf_inv in H. destruct H as (_ & _ & Hk & _ & ->). cbn [set_ln ln].
+      destruct (N.eqb_spec n n0) as [->|Hne]; cbn; split; try lia; reflexivity.
+    - apply llogimage_inv in H. destruct H as (_ & ->). cbn [set_ln ln].
+      destruct (N.eqb_spec n n0) as [->|Hne]; cbn; split; try lia; reflexivity.
+    - apply llogfsync_inv in H. destruct H as (img & rest & _ & _ & ->). cbn [set_ln ln].
+      destruct (N.eqb_spec n n0) as [->|Hne]; cbn; split; try lia; reflexivity.
+  Qed.
+
+  (* the excluded step: a crash resets the commit index and falls back to the durable log *)
+  Theorem crash_falls_back s n s' : lrule (LEl (LCrash n)) s = Some s' ->
+    l_commit (ln s' n) = 0%nat /\ l_log (ln s' n) = l_dlog (ln s n) /\ l_dlog (ln s' n) = l_dlog (ln s n).
+  Proof.
+    intros H. destruct (lel_inv _ _ _ _ _ H) as (e' & He & Hel & ->). cbn. rewrite N.eqb_refl. cbn. auto.
+  Qed.
+
+  (* the commit index never exceeds the volatile log *)
+  Theorem commit_within_log s n : lreachable s -> (l_commit (ln s n) <= length (l_log (ln s n)))%nat.
+  Proof. intros Hr. apply (li_G s (lreachable_LInv inc out inc_nonempty Hmulti s Hr)). Qed.
+End C05.
+
+(* the sanity scenario *)
+Definition sc : list llabel :=
+  [LEl (LCampaign 1); LEl (LImage 1); LEl (LFsync 1); LEl (LReleaseReq 1 1);
+   LEl (LGrant 2 1 1); LEl (LImage 2); LEl (LFsync 2); LEl (LReleaseGrant 2 1);
+   LEl (LRecvGrant 1 2); LEl (LBecomeLeader 1);
+   LPropose 1 7; LLogImage 1; LLogFsync 1;
+   LAdopt 2 2; LMkAck 2 2%nat; LLogImage 2; LLogFsync 2; LRelAck 2 1 2%nat; LCommitL 1 2%nat;
+   LEl (LUpdateTerm 3 1); LAdopt 3 1; LCommitF 3 1; LCommitF 2 2].
+
+Lemma sc_runs :
+  exists s, lrun [1;2;3] [] sc linit = Some s /\
+    l_log (ln s 1) = [(1,0);(1,7)] /\ l_log (ln s 3) = [(1,0)] /\
+    l_commit (ln s 1) = 2%nat /\ l_commit (ln s 2) = 2%nat /\ l_commit (ln s 3) = 1%nat /\
+    cpts s = [(1,2%nat)] /\ acked s 2 1 = 2%nat.
+Proof. eexists. split; [vm_compute; reflexivity|]. vm_compute. repeat split. Qed.
